@@ -109,13 +109,14 @@ Definition flat_zi (l : list Zi) : list Z := flat_map (fun z => [fst z; snd z]) 
 Definition mat_vec (U : mat Zi) (psi : list Zi) : list Zi :=
   map (fun row => zisum (map (fun p => zi_mul (fst p) (snd p)) (combine row psi))) U.
 
-Definition collapse_case (n : nat) (tq : list nat) (shot : nat) (psi : list Zi) (post : list (gapp Zi)) :=
+Definition collapse_case (n : nat) (tq : list nat) (shot : nat) (psi : list Zi) (post : list (gapp Zi))
+           (rec_impl : bits) (* the bits the implementation recorded on the gate's MeasurementResult *) :=
   let m := m_apply n tq shot psi in
   (recorded m, option_map flat_zi (collapsed m), cnorm2 m,
    option_map (fun c => flat_zi (mat_vec (circ_mat Ziops n post) c)) (collapsed m),
    (* specification: the state is the projection onto the recorded outcome, the recorded bits
       being read in the order of the gate's own qubits *)
-   opt_eqb zi_list_eqb (collapsed m) (Some (project n tq (recorded m) psi)),
+   opt_eqb zi_list_eqb (collapsed m) (Some (project n tq rec_impl psi)),
    (* what the code does: the recorded bits belong to the sorted qubits *)
    opt_eqb zi_list_eqb (collapsed m) (Some (project n (sort_nat tq) (recorded m) psi))).
 
